@@ -437,6 +437,22 @@ def field_writes(facts, adt, field, include_borrows=True, body_filter=None):
                     continue
                 if _ends_with_field(s["place"], adt, field):
                     out.append({"body": b, "bb": i, "idx": j, "kind": "store", "rv": s["rv"], "span": s.get("span")})
+                elif s["place"]["p"] == ["deref"] and b.local_ty(s["place"]["l"]).replace("&mut ", "").replace("&", "").split("<")[0] == adt:
+                    # `*guard = S { .. }`: the whole value is replaced; that stores every field of the literal
+                    rv = s["rv"]
+                    for _hop in range(5):
+                        if "use" not in rv:
+                            break
+                        q = op_place(rv["use"])
+                        ds_ = [d for d in b.defs_of(q["l"])] if q is not None and not q["p"] else []
+                        if len(ds_) == 1 and ds_[0][0] == "assign":
+                            rv = ds_[0][3]
+                        else:
+                            break
+                    if rv.get("agg") == "adt" and rv.get("adt") == adt and field in (rv.get("fields") or []):
+                        out.append({"body": b, "bb": i, "idx": j, "kind": "store", "rv": {"use": rv["ops"][rv["fields"].index(field)]}, "span": s.get("span"), "whole": True})
+                    elif rv.get("agg") != "adt":
+                        out.append({"body": b, "bb": i, "idx": j, "kind": "whole", "rv": s["rv"], "span": s.get("span")})
                 if "ref" in s["rv"] and s["rv"]["mut"] and _ends_with_field(s["rv"]["ref"], adt, field):
                     # `match &mut x.f { slot @ None => *slot = v, .. }`: a borrow that is only looked at and stored through is the
                     # stores made through it
